@@ -181,6 +181,17 @@ def producer_rules(prog, res):
         after = [s for s in sel if errb and f.must_pass(via_edges=errb, targets=[s])]
         res.check(bool(fb) and bool(after) and f.must_pass(via_edges=fb, targets=after), R, "fallback-only-if-enabled", f.loc, "after a producer failure the internal parser runs only under enableMatchFinderFallback",
                   "fallback taken although it is disabled (or never taken)")
+        # a fallback block is parsed by a match finder that (below btopt) maintains two repcodes only; the next block's external
+        # sequences are searched against all three: after the fallback parser, every path to the exit completes rep[2]
+        reach = f.flow([(b_, i_ + 1) for b_, i_ in after]) if after else set()
+        ind = [(b_, i_) for b_, i_, r in f.roots() if (b_, i_) in reach and
+               any(y.get("k") == "call" and y.get("c") is None and any(z.get("k") == "mem" and z.get("f") == "rep" for a in y.get("a", []) for z in walk(a)) for y in walk(r))]
+        w2 = f.find_roots(lambda x: x.get("k") == "asg" and x.get("op") == "=" and strip_casts(x["lhs"]).get("k") == "idx" and const_val(strip_casts(x["lhs"])["i"]) == 2
+                          and {"rep", "nextCBlock"} <= {z.get("f") for z in walk(x["lhs"]) if z.get("k") == "mem"})
+        ok2 = bool(ind) and bool(w2) and all(f.must_pass(via_roots=w2, starts=[(b_, i_ + 1)]) for b_, i_ in ind)
+        res.check(ok2, R, "fallback-block-completes-the-history", f.loc, "after the fallback parser nextCBlock->rep[2] is rewritten on every path (%d parser call(s))" % len(ind),
+                  "ZSTD_buildSeqStore: a block parsed by the fallback match finder leaves the previous block's rep[2] in nextCBlock->rep: the repcode search of the next "
+                  "producer block turns an offset equal to that stale value into repcode 3 and the frame decodes, without error, to other bytes")
     p = prog.fn("ZSTD_postProcessSequenceProducerResult")
     gs = guards.guard_sites(p)
     res.check(len([g for g in gs if {"sequenceProducer_failed"} & g.codes]) >= 2, R, "postProcess:failure-tests", p.loc, "too many sequences / zero sequences for a non-empty block are failures", "producer failure tests vanished")
@@ -188,7 +199,7 @@ def producer_rules(prog, res):
     wr = p.call_roots(("memset", "__builtin_memset"))
     res.check(bool(cap) and bool(wr) and p.must_pass(via_edges={(g.bid, g.ok) for g in cap}, targets=wr), R, "postProcess:delimiter-appended-within-capacity", p.loc,
               "a missing final delimiter is appended only when the array has room", "delimiter can be written past the producer's array")
-    res.need(R, 6)
+    res.need(R, 7)
     R2 = "T8.sequence-extraction"
     c = prog.fn("ZSTD_copyBlockSequences")
     gs = [g for g in guards.guard_sites(c) if "dstSize_tooSmall" in g.codes and "f:maxSequences" in (g.L | g.R)]
